@@ -506,7 +506,7 @@ func genRoot(g GenWorld) string {
 	defer genRootMu.Unlock()
 	b, _ := json.Marshal(g.Spec)
 	sum := sha256.Sum256(b)
-	root := filepath.Join(os.TempDir(), "verif-genvod-v1", hex.EncodeToString(sum[:8]))
+	root := filepath.Join(os.TempDir(), "verif-genvod-v2", hex.EncodeToString(sum[:8]))
 	if _, err := os.Stat(filepath.Join(root, ".ok")); err == nil {
 		return root
 	}
